@@ -12,8 +12,15 @@ for d in sorted(glob.glob("/verif/seeded/*")):
     name = os.path.basename(d)
     rep = m.get("reported_by", [])
     tgt = m.get("property_broken")
-    rows.append(f"| `{name}` | {short(m.get('summary',''), 150).replace('|','/')} | {short(m.get('needs_to_manifest',''), 140).replace('|','/')} | {'**' + tgt + '**' if tgt in rep else '(' + tgt + ' not; see text)'}{' ' + ' '.join(x for x in rep if x != tgt) if rep else ''} |")
-seeds = "| seed | change | needs | reported by (target in bold) |\n|---|---|---|---|\n" + "\n".join(rows)
+    others = ' '.join(x for x in rep if x != tgt)
+    if tgt in rep:
+        who = '**' + tgt + '**' + (' ' + others if others else '')
+    elif rep:
+        who = others + ' (not ' + tgt + ': ' + short(m.get('note', ''), 90) + ')'
+    else:
+        who = 'none — ' + short(m.get('note', ''), 160)
+    rows.append(f"| `{name}` | {short(m.get('summary',''), 110).replace('|','/')} | {short(m.get('needs_to_manifest',''), 90).replace('|','/')} | {who.replace('|','/')} |")
+seeds = "| seed | change | needs | reported by (target property in bold) |\n|---|---|---|---|\n" + "\n".join(rows)
 brow = []
 for d in sorted(glob.glob("/verif/benign/*")):
     try: m = json.load(open(d + "/meta.json"))
